@@ -6,6 +6,7 @@ toolchain go1.23.5
 
 require (
 	github.com/anishathalye/porcupine v1.3.0
+	github.com/dgraph-io/ristretto v1.0.0
 	github.com/go-jose/go-jose/v3 v3.0.3
 	github.com/hashicorp/go-retryablehttp v0.7.7
 	github.com/mohae/deepcopy v0.0.0-20170929034955-c48cc78d4826
@@ -21,7 +22,6 @@ require (
 	github.com/cespare/xxhash/v2 v2.3.0 // indirect
 	github.com/cristalhq/jwt/v4 v4.0.2 // indirect
 	github.com/davecgh/go-spew v1.1.1 // indirect
-	github.com/dgraph-io/ristretto v1.0.0 // indirect
 	github.com/dustin/go-humanize v1.0.1 // indirect
 	github.com/felixge/httpsnoop v1.0.4 // indirect
 	github.com/go-logr/logr v1.4.2 // indirect
